@@ -99,6 +99,13 @@ pub fn exec(func: &str, a: &mut Args) -> String {
             ointer2(crate::p2::shape::Triangle::new(p, q, t).cast_local_ray_and_get_normal(&ray, m, s)) }
         "tri2_posed" => { let p = d2::p(a); let q = d2::p(a); let t = d2::p(a); let iso = d2::iso(a); let (ray, m, s) = ray_tail2(a);
             ointer2(crate::p2::shape::Triangle::new(p, q, t).cast_ray_and_get_normal(&iso, &ray, m, s)) }
+        // ---- more GJK-cast shapes (oracle only): convex polyhedron / polygon from a hull, round cuboid
+        "convpoly_normal" => { let n = a.u(); let ps: Vec<P3> = (0..n).map(|_| d3::p(a)).collect(); let (ray, m, s) = ray_tail(a);
+            match crate::p3::shape::ConvexPolyhedron::from_convex_hull(&ps) { None => "nohull".into(), Some(c) => ointer(c.cast_local_ray_and_get_normal(&ray, m, s)) } }
+        "roundcuboid_normal" => { let he = d3::v(a); let br = a.f(); let (ray, m, s) = ray_tail(a);
+            ointer(crate::p3::shape::RoundCuboid { inner_shape: Cuboid::new(he), border_radius: br }.cast_local_ray_and_get_normal(&ray, m, s)) }
+        "convpoly2_normal" => { let n = a.u(); let ps: Vec<P2> = (0..n).map(|_| d2::p(a)).collect(); let (ray, m, s) = ray_tail2(a);
+            match crate::p2::shape::ConvexPolygon::from_convex_hull(&ps) { None => "nohull".into(), Some(c) => ointer2(c.cast_local_ray_and_get_normal(&ray, m, s)) } }
         _ => "nofn".into(),
     }
 }
@@ -141,7 +148,7 @@ fn polyline2(a: &mut Args) -> crate::p2::shape::Polyline {
 // ------------------------------------------------------------------ generators
 
 /// functions whose Lean handler exists (widened as the model grows)
-const ENABLED: &[&str] = &["ball2_toi", "ball2_normal", "cuboid2_toi", "cuboid2_normal", "tri2_normal", "tri2_posed", "rc_hf2", "simd_aabb_cast", "rc_hf3", "rc_hf3_posed", "rc_trimesh", "rc_trimesh_toi", "rc_compound", "rc_compound_toi", "rc_polyline2", "ball_toi", "ball_normal", "ball_posed", "ray_toi_with_ball", "bsphere_normal", "aabb_toi", "aabb_normal", "clip_aabb_line", "cuboid_toi", "cuboid_normal", "cuboid_posed", "cuboid_posed_toi", "halfspace_normal", "halfspace_posed", "triangle_normal", "triangle_inter", "segment2_normal", "segment2_posed", "capsule_normal", "cylinder_normal", "cone_normal"];
+const ENABLED: &[&str] = &["convpoly_normal", "roundcuboid_normal", "convpoly2_normal", "ball2_toi", "ball2_normal", "cuboid2_toi", "cuboid2_normal", "tri2_normal", "tri2_posed", "rc_hf2", "simd_aabb_cast", "rc_hf3", "rc_hf3_posed", "rc_trimesh", "rc_trimesh_toi", "rc_compound", "rc_compound_toi", "rc_polyline2", "ball_toi", "ball_normal", "ball_posed", "ray_toi_with_ball", "bsphere_normal", "aabb_toi", "aabb_normal", "clip_aabb_line", "cuboid_toi", "cuboid_normal", "cuboid_posed", "cuboid_posed_toi", "halfspace_normal", "halfspace_posed", "triangle_normal", "triangle_inter", "segment2_normal", "segment2_posed", "capsule_normal", "cylinder_normal", "cone_normal"];
 
 const DIR_SCALES: [f64; 9] = [0.001, 0.015625, 0.125, 0.5, 1.0, 2.0, 8.0, 64.0, 1000.0];
 
@@ -431,6 +438,7 @@ pub fn gen(r: &mut Rng, thorough: bool) -> Vec<(String, String)> {
     }
     gen_composites(r, thorough, &mut v);
     gen_2d(r, thorough, &mut v);
+    gen_gjk_more(r, thorough, &mut v);
     v.retain(|(f, _)| ENABLED.contains(&f.as_str()));
     v
 }
@@ -893,4 +901,88 @@ fn gen_2d(r: &mut Rng, thorough: bool, v: &mut Vec<(String, String)>) {
         }
     }
     if std::env::var("VERIF_FAMILIES").is_ok() { eprintln!("C04 gen_2d ray kinds (ball2): {:?}", fam); }
+}
+
+// ------------------------------------------------------------------ generators: convex polytopes and round cuboids (GJK casts)
+fn gen_gjk_more(r: &mut Rng, thorough: bool, v: &mut Vec<(String, String)>) {
+    let n = if thorough { 3000 } else { 300 };
+    for it in 0..n {
+        let lat = it % 2 == 0;
+        let solid = r.bool();
+        // ---------------- convex polyhedron: hull of 4..9 points (lattice: half-integers in [-2,2]^3; random: box of a random size)
+        {
+            let (ps, hull) = loop {
+                let np = 4 + r.below(6) as usize;
+                let sz = if lat { 1.0 } else { r.logu(0.2, 20.0) };
+                let ps: Vec<P3> = (0..np).map(|_| if lat { P3::new(r.range(-4, 4) as f64 * 0.5, r.range(-4, 4) as f64 * 0.5, r.range(-4, 4) as f64 * 0.5) }
+                                                   else { P3::new(r.uniform(-1.0, 1.0) * sz, r.uniform(-1.0, 1.0) * sz, r.uniform(-1.0, 1.0) * sz) }).collect();
+                // reject flat point sets (volume of the first non-degenerate tetrahedron)
+                let mut vol: f64 = 0.0;
+                for i in 1..np { for j in (i + 1)..np { for k in (j + 1)..np {
+                    vol = vol.max((ps[i] - ps[0]).cross(&(ps[j] - ps[0])).dot(&(ps[k] - ps[0])).abs()); } } }
+                if vol < 0.05 * sz * sz * sz { continue; }
+                if let Some(h) = crate::p3::shape::ConvexPolyhedron::from_convex_hull(&ps) { break (ps, h); }
+            };
+            let hp: Vec<P3> = hull.points().to_vec();
+            let c = hp.iter().fold(V3::zeros(), |a, p| a + p.coords) / hp.len() as f64;
+            let size = hp.iter().map(|p| (p.coords - c).norm()).fold(0.0, f64::max);
+            let mut ins = |r: &mut Rng| -> P3 { // convex combination biased to the centroid
+                let i = r.below(hp.len() as u64) as usize; let t = if lat { *r.pick(&[0.0, 0.25, 0.5]) } else { r.unit() * 0.9 };
+                P3::from(c + (hp[i].coords - c) * t) };
+            let mut sur = |r: &mut Rng| -> P3 { // vertex, or a point of a hull edge / chord between two vertices
+                let i = r.below(hp.len() as u64) as usize; let j = r.below(hp.len() as u64) as usize;
+                let t = if r.below(3) == 0 { 0.0 } else if lat { 0.5 } else { r.unit() };
+                P3::from(hp[i].coords * (1.0 - t) + hp[j].coords * t) };
+            let (o, d) = gen_ray3(r, lat, size.max(0.1), &mut ins, &mut sur);
+            let t0 = hull.cast_local_ray(&Ray::new(o, d), f64::MAX, solid);
+            let m = gen_max(r, lat, t0, d.norm());
+            let pts = ps.iter().map(|p| d3::hp(p)).collect::<Vec<_>>().join(" ");
+            v.push(("convpoly_normal".into(), format!("{} {} {}", ps.len(), pts, tail(&o, &d, m, solid))));
+        }
+        // ---------------- round cuboid
+        {
+            let he = if lat { V3::new(*r.pick(&[0.5, 1.0, 2.0]), *r.pick(&[0.5, 1.0, 2.0]), *r.pick(&[0.5, 1.0, 2.0])) } else { V3::new(r.logu(0.1, 10.0), r.logu(0.1, 10.0), r.logu(0.1, 10.0)) };
+            let br = if lat { *r.pick(&[0.25, 0.5, 1.0]) } else { r.logu(0.05, 2.0) };
+            let mut ins = |r: &mut Rng| -> P3 {
+                if lat { P3::new(he.x * *r.pick(&[-0.5, 0.0, 0.5]), he.y * *r.pick(&[-0.5, 0.0, 0.5]), he.z * *r.pick(&[-0.5, 0.0, 0.5])) }
+                else { P3::new((he.x + 0.5 * br) * r.uniform(-1.0, 1.0), (he.y + 0.5 * br) * r.uniform(-1.0, 1.0), (he.z + 0.5 * br) * r.uniform(-1.0, 1.0)) } };
+            let mut sur = |r: &mut Rng| -> P3 { // a point of the inner box surface pushed out by br along a face / edge / corner direction
+                let mut p = V3::new(he.x * r.uniform(-1.0, 1.0), he.y * r.uniform(-1.0, 1.0), he.z * r.uniform(-1.0, 1.0));
+                if lat { p = V3::new(he.x * *r.pick(&[-0.5, 0.0, 0.5]), he.y * *r.pick(&[-0.5, 0.0, 0.5]), he.z * *r.pick(&[-0.5, 0.0, 0.5])); }
+                let nfix = 1 + r.below(3) as usize; let start = r.below(3) as usize; let mut nrm = V3::zeros();
+                for k in 0..nfix { let i = (start + k) % 3; let sg = if r.bool() { 1.0 } else { -1.0 }; p[i] = sg * he[i]; nrm[i] = sg; }
+                if lat && nfix == 2 { let i = start % 3; let j = (start + 1) % 3; nrm[i] *= 0.6; nrm[j] *= 0.8; P3::from(p + nrm * br) }
+                else if lat && nfix == 3 { nrm = V3::zeros(); nrm[start % 3] = if r.bool() { 1.0 } else { -1.0 }; p[start % 3] = nrm[start % 3] * he[start % 3]; P3::from(p + nrm * br) }
+                else { P3::from(p + nrm.normalize() * br) } };
+            let (o, d) = gen_ray3(r, lat, he.norm() + br, &mut ins, &mut sur);
+            let rc = crate::p3::shape::RoundCuboid { inner_shape: Cuboid::new(he), border_radius: br };
+            let t0 = rc.cast_local_ray(&Ray::new(o, d), f64::MAX, solid);
+            let m = gen_max(r, lat, t0, d.norm());
+            v.push(("roundcuboid_normal".into(), format!("{} {} {}", d3::hv(&he), hx(br), tail(&o, &d, m, solid))));
+        }
+        // ---------------- convex polygon (2-D): hull of 3..8 points
+        {
+            let (ps, hull) = loop {
+                let np = 3 + r.below(6) as usize;
+                let sz = if lat { 1.0 } else { r.logu(0.2, 20.0) };
+                let ps: Vec<P2> = (0..np).map(|_| if lat { P2::new(r.range(-4, 4) as f64 * 0.5, r.range(-4, 4) as f64 * 0.5) }
+                                                   else { P2::new(r.uniform(-1.0, 1.0) * sz, r.uniform(-1.0, 1.0) * sz) }).collect();
+                let mut ar: f64 = 0.0;
+                for i in 1..np { for j in (i + 1)..np { ar = ar.max((ps[i] - ps[0]).perp(&(ps[j] - ps[0])).abs()); } }
+                if ar < 0.1 * sz * sz { continue; }
+                if let Some(h) = crate::p2::shape::ConvexPolygon::from_convex_hull(&ps) { if h.points().len() >= 3 { break (ps, h); } }
+            };
+            let hp: Vec<P2> = hull.points().to_vec();
+            let c = hp.iter().fold(V2::zeros(), |a, p| a + p.coords) / hp.len() as f64;
+            let size = hp.iter().map(|p| (p.coords - c).norm()).fold(0.0, f64::max);
+            let mut ins = |r: &mut Rng| -> P2 { let i = r.below(hp.len() as u64) as usize; let t = if lat { *r.pick(&[0.0, 0.25, 0.5]) } else { r.unit() * 0.9 }; P2::from(c + (hp[i].coords - c) * t) };
+            let mut sur = |r: &mut Rng| -> P2 { let i = r.below(hp.len() as u64) as usize; let j = (i + 1) % hp.len();
+                let t = if r.below(3) == 0 { 0.0 } else if lat { 0.5 } else { r.unit() }; P2::from(hp[i].coords * (1.0 - t) + hp[j].coords * t) };
+            let (o, d, _) = gen_ray2(r, lat, size.max(0.1), &mut ins, &mut sur);
+            let t0 = hull.cast_local_ray(&Ray2::new(o, d), f64::MAX, solid);
+            let m = gen_max(r, lat, t0, d.norm());
+            let pts = ps.iter().map(|p| d2::hp(p)).collect::<Vec<_>>().join(" ");
+            v.push(("convpoly2_normal".into(), format!("{} {} {}", ps.len(), pts, tail2(&o, &d, m, solid))));
+        }
+    }
 }
